@@ -246,7 +246,7 @@ def run(res, tier, seed, shard, nshards):
     sub = pts[:: 3 if tier == "quick" else 1]
     evr = Evaluator(res, sub)
     for i in range(n_rand):
-        q = gen_query(rng, max_depth=rng.choice([3, 4]))
+        q = gen_query(rng, max_depth=rng.choice([3, 4, 4, 6, 8]))
         evr.check(q, "random")
         if i == 5:
             res.sample({"random": qast.show(q)})
